@@ -306,7 +306,36 @@ def specs():
                          ("TRIAD", lambda: F.TRIAD(), None), ("TRIAD[quaternion]", lambda: F.TRIAD(), lambda X, x, y: X.estimate(x, y, "quaternion")),
                          ("AQUA", lambda: F.AQUA(), None)):
         same(nm + ".estimate", mk_, est or (lambda X, x, y: X.estimate(x, y)), lambda a: list(a.am()), array_class=False)
+    # ---- the same call written with keywords (parameter names from the signature): the same arguments, so the same result
+    import inspect
+
+    def kwcall(func):
+        names_all = list(inspect.signature(func).parameters)
+
+        def fn(*args):
+            names = names_all[:len(args)]
+            return KwPair(func(*[a.copy() if isinstance(a, np.ndarray) else a for a in args]), func(**{n: (a.copy() if isinstance(a, np.ndarray) else a) for n, a in zip(names, args)}), names)
+        return fn
+    for nm, func, fac in (("q_conj", o.q_conj, lambda a: [a.q()]), ("q_norm", o.q_norm, lambda a: [a.q()]), ("q_prod", o.q_prod, lambda a: [a.q(), a.q()]),
+                          ("q_mult_L", o.q_mult_L, lambda a: [a.q()]), ("q_mult_R", o.q_mult_R, lambda a: [a.q()]), ("q_rot", o.q_rot, lambda a: [a.qu(), a.v()]),
+                          ("axang2quat", o.axang2quat, lambda a: [a.v(), 0.3]), ("quat2axang", o.quat2axang, lambda a: [a.qu()]), ("q2R", o.q2R, lambda a: [a.qu()]),
+                          ("q2euler", o.q2euler, lambda a: [a.qu()]), ("rpy2q", o.rpy2q, lambda a: [a.ang()]), ("q2rpy", o.q2rpy, lambda a: [a.qu()]),
+                          ("ecompass", o.ecompass, lambda a: list(a.am())), ("am2DCM", o.am2DCM, lambda a: list(a.am())), ("am2q", o.am2q, lambda a: list(a.am())),
+                          ("am2angles", o.am2angles, lambda a: list(a.am())), ("acc2q", o.acc2q, lambda a: [a.v()]), ("slerp", o.slerp, lambda a: [a.qu(), a.qu(), a.t()]),
+                          ("shepperd", o.shepperd, lambda a: [a.R()]), ("chiaverini", o.chiaverini, lambda a: [a.R()]), ("hughes", o.hughes, lambda a: [a.R()]),
+                          ("sarabandi", o.sarabandi, lambda a: [a.R()]), ("itzhack", o.itzhack, lambda a: [a.R()]),
+                          ("metrics.chordal", M.chordal, lambda a: [a.R(), a.R()]), ("metrics.angular_distance", M.angular_distance, lambda a: [a.R(), a.R()]),
+                          ("metrics.identity_deviation", M.identity_deviation, lambda a: [a.R(), a.R()]), ("metrics.qdist", M.qdist, lambda a: [a.q(), a.q()]),
+                          ("metrics.qeip", M.qeip, lambda a: [a.q(), a.q()]), ("metrics.qcip", M.qcip, lambda a: [a.q(), a.q()]), ("metrics.qad", M.qad, lambda a: [a.q(), a.q()]),
+                          ("metrics.euclidean", M.euclidean, lambda a: [a.v(), a.v()]), ("frames.ned2enu", frames.ned2enu, lambda a: [a.v()]), ("frames.enu2ned", frames.enu2ned, lambda a: [a.v()]),
+                          ("quaternion.slerp", qslerp, lambda a: [a.qu(), a.qu(), a.t()]), ("mathfuncs.skew", mathfuncs.skew, lambda a: [a.v()])):
+        add("[by keyword] " + nm, kwcall(func), fac)
     return S
+
+
+class KwPair:
+    def __init__(self, positional, by_keyword, names):
+        self.positional, self.by_keyword, self.names = positional, by_keyword, names
 
 
 class RepeatRaised:
@@ -364,6 +393,8 @@ _cache = {}
 
 
 def flat(r):
+    if isinstance(r, KwPair):
+        r = [r.positional, r.by_keyword]
     if isinstance(r, SameObject):
         r = [x for x in r.results if not isinstance(x, RepeatRaised)]
     if isinstance(r, (tuple, list)):
@@ -496,6 +527,11 @@ def check(case, ctx):
         return
     if case.p["form"] == "readonly":
         ctx.ok("write-protected arguments are only read (the call does not fail for want of write access)", True, route=name)
+    if isinstance(r1.value, KwPair):
+        kp = r1.value
+        f1, f2 = flat(kp.positional), flat(kp.by_keyword)
+        ctx.ok("the call written with keywords (parameter names of the signature) returns what the positional call returns", f1.shape == f2.shape and np.array_equal(f1, f2, equal_nan=True),
+               {"names": kp.names, "max_diff": float(np.nanmax(np.abs(f1 - f2))) if f1.shape == f2.shape and f1.size else None}, route=name)
     if isinstance(r1.value, SameObject):
         so = r1.value
         raised = [x.msg for x in so.results if isinstance(x, RepeatRaised)]
@@ -542,6 +578,8 @@ def scribble(val, args, undo):
     n = 0
     if isinstance(val, SameObject):
         return 0
+    if isinstance(val, KwPair):
+        return scribble([val.positional, val.by_keyword], args, undo)
     if isinstance(val, (tuple, list)):
         return sum(scribble(v, args, undo) for v in val)
     if isinstance(val, np.ndarray) and val.size and val.dtype.kind in "fiuc":
